@@ -55,6 +55,16 @@ def main():
     keep = sys.argv[sys.argv.index("--keep") + 1] if "--keep" in sys.argv else None
     wt = f"/tmp/evalwt_{os.getpid()}"
     out = dict(property=prop, source=d)
+    if "--prev" in sys.argv:      # re-evaluation after a check was strengthened: carry the test-suite comparison over
+        try:
+            prev = json.load(open(sys.argv[sys.argv.index("--prev") + 1]))
+            for k in ("tests_changed", "tests_total"):
+                if k in prev:
+                    out[k] = prev[k]
+            out["first_evaluation_checks"] = prev.get("checks")
+            out["first_evaluation_caught"] = prev.get("caught")
+        except Exception:  # noqa
+            pass
     rc, o = sh(["git", "-C", "/repo", "worktree", "add", "-q", "--detach", wt, "HEAD"])
     if rc != 0:
         print("worktree failed", o)
